@@ -221,7 +221,7 @@ func TestC14(t *testing.T) {
 		}
 		rec.Exhaustive("clock grid: remaining 1..400 step 1 + break points + decades to 10^12, x increments 0..100 + decades to 10^9 + crossing points, x colours x move times")
 		rec.Sample("grid", Case{Remaining: 31, Inc: 0, OppTime: 60000, OppInc: 1000, Stm: 0})
-		rec.Rapid(t, "random", evid.Pick(1000000, 20000000), func(t *rapid.T) {
+		rec.Rapid(t, "random", evid.Pick(1000000, 200000000), func(t *rapid.T) {
 			pick := func(l string, lo int64) int64 {
 				switch gen.Draw(t, 0, 3, l+"k") {
 				case 0:
@@ -241,7 +241,7 @@ func TestC14(t *testing.T) {
 				t.Fatalf("%v", err)
 			}
 		})
-		rec.Rapid(t, "driver", evid.Pick(2000, 20000), func(t *rapid.T) {
+		rec.Rapid(t, "driver", evid.Pick(2000, 60000), func(t *rapid.T) {
 			c := Case{Remaining: rapid.Int64Range(1, 10_000_000).Draw(t, "rem"), Inc: rapid.Int64Range(0, 100000).Draw(t, "inc"), OppTime: rapid.Int64Range(1, 10_000_000).Draw(t, "ot"), OppInc: rapid.Int64Range(0, 100000).Draw(t, "oi"), Stm: gen.Draw(t, 0, 1, "stm"), Driver: true}
 			if gen.Chance(t, 1, 4, "mt") {
 				c.MoveTime = rapid.Int64Range(1, 100000).Draw(t, "mt")
